@@ -348,9 +348,10 @@ HARNESSES = [
         quick=R.tier(cells=_ab_cells(_grid(0, 2, 2), split_a_from=2), timeout=300,
                      bound="tag `C/<v> <u>` on MINI_U (real timeUnits, modifiers pruned to milli, kilo, m, M), printable "
                            "ASCII without '/', u blank-free: len(v) <= 2, 1 <= len(u) <= 2"),
-        thorough=R.tier(cells=_ab_cells(_grid(0, 2, 4) + [(3, 1), (3, 2)], split_a_from=1, split2_a_from=3),
-                        timeout=1500, path_timeout=60,
-                        bound="same: len(v) <= 2 and 1 <= len(u) <= 4, or len(v) == 3 and 1 <= len(u) <= 2"),
+        thorough=R.tier(cells=_ab_cells(_grid(0, 1, 4) + [(2, 1), (2, 2), (2, 3), (3, 1)], split_a_from=1,
+                                        split2_a_from=3), timeout=1500, path_timeout=60,
+                        bound="same: len(v) <= 1 and 1 <= len(u) <= 4, or len(v) == 2 and 1 <= len(u) <= 3, or "
+                              "len(v) == 3 and len(u) == 1"),
         what="agreement of validation, conversion and reference on number text x unit text: validate_units reports no "
              "error <=> v is a number (N1) and u spells a unit; no recognised unit => an error is reported (UNITS_INVALID "
              "when v is a number) and value_as_default_unit returns None without raising; accepted => "
@@ -361,9 +362,10 @@ HARNESSES = [
                      bound="tag `M/<a> <b>` on MINI_U (M/# takes the real currencyUnits: $ {unitPrefix}, dollar, euro, "
                            "point), printable ASCII without '/', b blank-free: 1 <= len(a) <= 2 and 1 <= len(b) <= 2, or "
                            "len(a) == 1 and len(b) == 4"),
-        thorough=R.tier(cells=_ab_cells(_grid(1, 3, 2) + [(1, 4), (1, 5), (1, 6), (2, 4)], split_a_from=1,
+        thorough=R.tier(cells=_ab_cells(_grid(1, 2, 2) + [(3, 1), (1, 4), (1, 5), (1, 6), (2, 4)], split_a_from=1,
                                         split2_a_from=3), timeout=1500, path_timeout=60,
-                        bound="same: 1 <= len(a) <= 3 and 1 <= len(b) <= 2, or (len a, len b) in (1,4),(1,5),(1,6),(2,4)"),
+                        bound="same: 1 <= len(a) <= 2 and 1 <= len(b) <= 2, or (len a, len b) in (3,1),(1,4),(1,5),(1,6),"
+                              "(2,4)"),
         what="same agreement where the unit class has a prefix unit: accepted <=> (a is a number and b spells a unit "
              "written behind the number) or (a spells a unitPrefix unit and b is a number); `3 $` and `dollar 3` are "
              "rejected; value defined iff accepted and the unit declares a conversion factor",
